@@ -60,6 +60,18 @@ def step (x : S) (w : List String) : Option (S × String × List String) :=
     let (s', e) := newConsumer s
     fin { x with st := s', closeInit := if e.isNone then x.closeInit ++ [false] else x.closeInit } (optErr e)
       (if x.shifted && e.isNone then ["cons_after_shift"] else [])
+  | "putflipres" :: res :: vs =>
+    -- a Put whose context was cancelled right after its up-front check: the implementation may report either outcome; a Put that
+    -- reports success has appended (one atomic append), one that reports failure has appended NOTHING (C01) — the state
+    -- line that follows compares the contents
+    match vs.mapM String.toNat? with
+    | none => none
+    | some vs =>
+      let (s', e) := put s vs
+      if res == "ok" then
+        if e.isNone then fin { x with st := s' } "ok" ["put_with_late_cancel_succeeded"]
+        else fin x "rejected: Put reported success on a closed buffer" []
+      else fin x "ok" ["put_with_late_cancel_failed"]
   | "put" :: vs =>
     match vs.mapM String.toNat? with
     | none => none
